@@ -148,6 +148,66 @@ def module_level_import(modname, name):
     return None
 
 
+class LazyImport:
+    """A name bound by a module-level package-internal import (`from . import config as runtime_config`,
+    `from .x import f`): resolved through the harness's import table at the moment it is used, exactly like a
+    function-level import of the same thing (the table is filled by the contract's thunk)."""
+
+    def __init__(self, ns, module, name, fallback=None):
+        object.__setattr__(self, "_li", (ns, module, name))
+        object.__setattr__(self, "_fb", fallback)
+        object.__setattr__(self, "_val", None)
+
+    def _target(self):
+        ns, module, name = object.__getattribute__(self, "_li")
+        try:
+            return ns["__pyvc_import__"](module, name)
+        except Undecided:
+            fb = object.__getattribute__(self, "_fb")
+            if fb is None:
+                raise
+            v = object.__getattribute__(self, "_val")
+            if v is None:
+                v = fb()      # a function of another module of the package: extracted mechanically like a local helper
+                object.__setattr__(self, "_val", v)
+            return v
+
+    def __getattr__(self, a):
+        return getattr(self._target(), a)
+
+    def __setattr__(self, a, v):
+        setattr(self._target(), a, v)
+
+    def __call__(self, *a, **k):
+        return self._target()(*a, **k)
+
+
+def _package_function(ctx, ns, modname, relmod, name):
+    """Fallback of a LazyImport: `from ..utils import f` inside bldfm.plotting.footprint -> bldfm.utils:f, extracted into
+    the same harness namespace (None when the target is not a module-level function of a package module)."""
+    level = len(relmod) - len(relmod.lstrip("."))
+    base = modname.split(".")[:-level] if level else modname.split(".")
+    target = ".".join(base + ([relmod.lstrip(".")] if relmod.lstrip(".") else []))
+    try:
+        b = module_level_binding(target, name)
+    except Exception:
+        return None
+    if not b or b[0] != "function":
+        return None
+    return lambda: define(ctx, ns, target, name)
+
+
+def module_level_relative_import(modname, name):
+    """(module, original name) when `name` is bound at module level by a package-internal import."""
+    import ast
+    for n in frontend.module(modname).tree.body:
+        if isinstance(n, ast.ImportFrom) and n.level >= 1:
+            for a in n.names:
+                if (a.asname or a.name) == name:
+                    return ("." * n.level) + (n.module or ""), a.name
+    return None
+
+
 def free_names(modname, qualname):
     import ast
     import builtins
@@ -204,11 +264,20 @@ def define(ctx, ns, modname, qualname, loop_specs=None, extra=None, label=None):
                 imp = module_level_import(modname, nm)
                 if imp is not None:
                     ns[nm] = imp
+                else:
+                    rel = module_level_relative_import(modname, nm)
+                    if rel is not None:
+                        ns[nm] = LazyImport(ns, rel[0], rel[1], fallback=_package_function(ctx, ns, modname, rel[0], rel[1]))
                 continue
             if b[0] in ("function", "class"):
                 define(ctx, ns, modname, nm)
             elif b[0] == "other":
-                frontend.exec_module_constant(ns, modname, nm)
+                def _resolve(x, _seen=set()):
+                    bx = module_level_binding(modname, x)
+                    if bx and bx[0] in ("function", "class") and x not in ns and x not in _seen:
+                        _seen.add(x)
+                        define(ctx, ns, modname, x)
+                frontend.exec_module_constant(ns, modname, nm, resolve=_resolve)
             elif b[0] == "mutable":
                 ns[nm] = {"Dict": dict, "DictComp": dict, "dict": dict, "defaultdict": dict, "OrderedDict": dict,
                           "List": list, "ListComp": list, "list": list, "deque": list,
